@@ -97,6 +97,17 @@ FRAGMENT_HISTORY = [
 ]
 
 
+TYPED_HISTORY = [
+    {"stage": "stage (a): scalars, operators, calls, let/if/while", "applies_to": 989, "inside": 5219},
+    {"stage": "+ struct values (closure environments), function values; types up to norm; typedTablesOK",
+     "applies_to": 3171, "inside": 5795},
+    {"stage": "+ Ref / array helpers, tuples, array literals", "applies_to": 4043, "inside": 5795},
+    {"stage": "+ enum values and match (narrowing of the scrutinee in the arms of a type switch)",
+     "applies_to": 5441, "inside": 5795},
+    {"stage": "+ go", "applies_to": 5474, "inside": 5795, "mirror_answers_ok_on(upper bound)": 5617},
+]
+
+
 def _model_chunk(lines):
     p = vlib.srun(["bash", "-c", f"ulimit -s unlimited; exec {vlib.MODEL} gocomp"], input="\n".join(lines) + "\n",
                        stdout=subprocess.PIPE, stderr=subprocess.PIPE, text=True, timeout=3000)
@@ -283,6 +294,7 @@ def evaluate(ctx):
         "InGoFragment": dict(frag, outside=frag["functions"] - frag["inside"],
                              reasons_outside=dict(sorted(reasons.items(), key=lambda kv: -kv[1]))),
         "InGoFragment_history": FRAGMENT_HISTORY,
+        "typing_half_history(compile_wellformed_typed_partial)": TYPED_HISTORY,
         "typing_mirror(GoTyping.fnOKT vs Go.check, per real Go function)": typed,
         "behaviour_oracle(anf vs go)": b,
         "samples": samples or [{"id": "none"}],
